@@ -157,4 +157,38 @@ def sample (T : Table) : Nat → FSys → List Nat → Bool → Nat → List SLa
       let mc1 := match l with | .close => false | _ => mayClose
       sample T fuel f1 ins1 mc1 seed1 (l :: pre)
 
+/-! ### variants of `run` for the negative witnesses (`Props/C08Sched.lean`)
+
+`noFinalBump`: `escGen++` in front of `emit(EOF{})` left out (the `Lock`/`Unlock` around it stay).
+`bumpInEscape`: `escGen++` not in `run` before every transition but at the top of the `escape` state
+function (seeded change C08-m2): the bytes `anywhere` handles itself — CAN, SUB, ESC, end of input —
+no longer outdate a started callback. -/
+
+inductive RunVariant | code | noFinalBump | bumpInEscape
+  deriving DecidableEq, Repr, Inhabited
+
+def mainStepV (v : RunVariant) (T : Table) (f : FSys) : Option (FSys × List Seq) :=
+  match v, f.mpc with
+  | .noFinalBump, .fin .bump w => some ({ f with mpc := .fin .unlock w }, [])
+  | .bumpInEscape, .locked i =>
+    let inEscapeFn : Bool := f.ps.state = .escape && (match i with
+      | .rune r => r ≠ 0x18 && r ≠ 0x1A && r ≠ 0x1B
+      | .eof => false)
+    some ({ f with escGen := if inEscapeFn then f.escGen + 1 else f.escGen, mpc := .bumped i }, [])
+  | _, _ => mainStep T f
+
+def FSys.stepV (v : RunVariant) (T : Table) (f : FSys) : FLabel → Option (FSys × List Seq)
+  | .main => mainStepV v T f
+  | l => FSys.step T f l
+
+def FSys.runV (v : RunVariant) (T : Table) : FSys → List FLabel → Option (FSys × List Seq)
+  | f, [] => some (f, [])
+  | f, l :: ls =>
+    match FSys.stepV v T f l with
+    | none => none
+    | some (f1, o1) =>
+      match FSys.runV v T f1 ls with
+      | none => none
+      | some (f2, o2) => some (f2, o1 ++ o2)
+
 end VaxisModel.Model.ParserRunSched
